@@ -104,6 +104,32 @@ Proof.
 Qed.
 Print Assumptions C17_level_any_layout.
 
+(* The level DIRECTORY: the binary files together with the level header chk2plt
+   writes (field count, index ranges, (file, offset) table, minima / maxima rows)
+   are the directory of an abstract level (Plotfile.Abstract.pl_dir) - the
+   converted level with its files listed as the tool lists them -, which is
+   well-formed: the same statement as the level lemmas of the colander / combine
+   / chef tool theorems.  ('%.16e' prints stand as the model's word tokens.) *)
+Theorem C17_level_directory : forall gradp_files ir_files gradp_cells ir_cells do_gradp do_ir floored y_start nspecies
+    slv boxes comps_of nout lb,
+  wf_level slv = true -> length boxes = length (lv_fabs slv) ->
+  let n := length (lv_fabs slv) in
+  let sf := fun i => nth i (lv_fabs slv) dummy_fab in
+  (forall i, (i < n)%nat ->
+     box_comps gradp_files ir_files do_gradp do_ir floored y_start nspecies
+               (fab_nc (sf i)) (fab_shape (sf i)) (fab_data (sf i)) (jobi gradp_cells ir_cells boxes i) = Some (comps_of i)) ->
+  NoDup (map (fun nf : bytes * list nat => cell_name (fst nf)) (lv_files slv)) ->
+  (forall i, (i < n)%nat -> fab_ok (conv_i gradp_cells ir_cells boxes comps_of i) = true) ->
+  let out := conv_plevel gradp_cells ir_cells slv boxes comps_of lb in
+  convert_level_dir nout boxes (lv_disk slv) (cells_or_nil slv) gradp_files gradp_cells ir_files ir_cells do_gradp do_ir floored y_start nspecies
+  = Some (snd (pl_dir nout out))
+  /\ wf_level (pl_level out) = true.
+Proof.
+  intros gf irf gc ic dg di fl ys ns slv boxes comps_of nout lb Hwf Hb n sf Hconv Hnames Hok out.
+  exact (convert_level_dir_spec gf irf gc ic dg di fl ys ns slv Hwf boxes Hb comps_of Hconv Hnames Hok nout lb).
+Qed.
+Print Assumptions C17_level_directory.
+
 (* The state-only conversion (no gradp, no I_R, no flooring) of a level whose
    boxes are stored with g >= 1 ghost cells on every side, ANY layout: no per-box
    hypothesis is left - every box converts to its interior (C17_interior), each
